@@ -37,9 +37,21 @@ class RecWorld(World):
         super().__init__(*a, **kw)
         self.log = []
         self.edit_repr = "none"
+        self.inner = None          # the TCP/UDP layer whose state is logged (default: the top layer)
+        self.force_in = None       # label for deliveries that belong to a tunnel handshake
+        self.transport = None      # tunnel family: the real connection (to the proxy) carrying ctx.server
 
     def side(self, conn):
         return "c" if conn is self.ctx.client else "s"
+
+    def server_bits(self):
+        """state of the server side as the relay is about to see it: under a tunnel the virtual connection loses
+        CAN_READ (inside the tunnel layer) as soon as the transport connection has"""
+        b = bits(self.ctx.server)
+        t = self.transport
+        if t is not None and t.timestamp_start is not None and not (t.state & ConnectionState.CAN_READ):
+            b = "-" + b[1]
+        return b
 
     def describe(self, ev):
         if isinstance(ev, events.Start): return "start"
@@ -67,18 +79,20 @@ class RecWorld(World):
         return "?" + type(c).__name__
 
     def _handle(self, event):
-        ent = {"in": self.describe(event), "out": [], "pre": bits(self.ctx.client) + bits(self.ctx.server)}
+        ent = {"in": self.force_in or self.describe(event), "out": [], "pre": bits(self.ctx.client) + self.server_bits()}
         self.log.append(ent)
         try:
             for c in self.layer.handle_event(event):
                 r = self.render(c)
-                if r is not None: ent["out"].append(r)
+                if self.force_in and isinstance(c, commands.SendData) and c.connection is not self.ctx.client:
+                    r = None        # the tunnel protocol's own handshake bytes (CONNECT request) are not relayed data
+                if r is not None and not r.startswith("?HttpConnectUpstreamHook"): ent["out"].append(r)
                 self._command(c)
         except Exception as e:
             import traceback
             self.errors.append((type(e).__name__, str(e), traceback.format_exc()))
             ent["out"].append("X:" + type(e).__name__)
-        lay = self.layer
+        lay = self.inner or self.layer
         ent["c"], ent["s"] = bits(self.ctx.client), bits(self.ctx.server)
         ent["ph"] = {"start": "start", "relay_messages": "relay", "done": "done"}.get(lay._handle_event.__name__, "?")
         ent["paused"] = 0 if lay._paused is None else 1
@@ -155,6 +169,115 @@ def run_schedule(case):
             "quiescent": lay._paused is None}
 
 
+class ChildTap:
+    """sits between a TunnelLayer and its TCPLayer child: logs every event the child receives, the commands it
+    yields for it and its state afterwards (the model tie of the tunnel family is made at this boundary)"""
+
+    def __init__(self, inner, world):
+        self.inner, self.w, self.log = inner, world, []
+
+    def __getattr__(self, name):
+        return getattr(self.inner, name)
+
+    def handle_event(self, event):
+        w, lay = self.w, self.inner
+        ent = {"in": w.describe(event), "out": []}
+        self.log.append(ent)
+        try:
+            for c in lay.handle_event(event):
+                r = w.render(c)
+                if r is not None: ent["out"].append(r)
+                yield c
+        finally:
+            ent["ph"] = {"start": "start", "relay_messages": "relay", "done": "done"}.get(lay._handle_event.__name__, "?")
+            ent["paused"] = 0 if lay._paused is None else 1
+            ent["q"] = len(lay._paused_event_queue)
+            ent["n"] = len(lay.flow.messages) if lay.flow else 0
+
+
+def run_schedule_tunnel(case):
+    """the real TCPLayer UNDER a real tunnel layer: HttpUpstreamProxy (CONNECT tunnel, tunnel.py base class).
+    ctx.server is the tunnelled (virtual) connection, the world only ever sees the connection to the proxy."""
+    from mitmproxy.proxy.layers.http._upstream_proxy import HttpUpstreamProxy
+    global _OPTS
+    if _OPTS is None: _OPTS = make_context("tcp").options
+    ctx = make_context("tcp", opts=_OPTS)
+    ctx.server = connection.Server(address=("192.0.2.9", 4433))
+    proxy = connection.Server(address=("192.0.2.77", 3128))
+    tun = HttpUpstreamProxy(ctx, proxy, True)
+    lay = ltcp.TCPLayer(ctx)
+
+    w = RecWorld(tun, ctx, on_hook=lambda w, h: "defer" if isinstance(h, LAYER_HOOKS) else None,
+                 on_connect=lambda w, c: "defer")
+    w.inner = lay
+    w.transport = proxy
+    tap = ChildTap(lay, w)
+    tun.child_layer = tap
+    # both the virtual connection and the proxy connection are the "server" side of the relay
+    tunnel_up = False
+    killed = 0
+
+    def do_hook(edit):
+        nonlocal killed
+        if not w.deferred_hooks: return
+        h = w.deferred_hooks[0]
+        w.edit_repr = "none"
+        if isinstance(h, ltcp.TcpMessageHook):
+            if edit == "kill":
+                if h.flow.killable: h.flow.kill(); killed += 1
+            elif edit is not None:
+                h.flow.messages[-1].content = unhx(edit); w.edit_repr = edit
+        w.resume(h)
+
+    def do_connect(err):
+        nonlocal tunnel_up
+        if not w.deferred_connects: return
+        cmd = w.deferred_connects[0]
+        if err:
+            w.finish_connect(cmd, "boom"); return
+        # TCP connect to the proxy succeeds, CONNECT request goes out, the proxy answers 200: one atomic step
+        w.force_in = "handshake"
+        try:
+            w.finish_connect(cmd, None)
+            w.deliver(events.DataReceived(proxy, b"HTTP/1.1 200 Connection established\r\n\r\n"))
+        finally:
+            w.force_in = None
+        tunnel_up = True
+
+    w.start()
+    for act in case["sched"]:
+        k = act[0]
+        if k == "data":
+            if act[1] == "s":
+                if tunnel_up: w.deliver(events.DataReceived(proxy, unhx(act[2])))
+            else:
+                w.deliver(events.DataReceived(ctx.client, unhx(act[2])))
+        elif k == "inject":
+            w.deliver(ltcp.TcpMessageInjected(lay.flow, tcp.TCPMessage(bool(act[1]), unhx(act[2]))))
+        elif k == "close":
+            c = ctx.client if act[1] == "c" else proxy
+            if c is proxy and not tunnel_up: continue
+            if act[2]: c.state = ConnectionState.CLOSED
+            else: c.state &= ~ConnectionState.CAN_READ
+            w.deliver(events.ConnectionClosed(c))
+            if c.state is not ConnectionState.CAN_WRITE:
+                w._discard(c); w.drain()
+        elif k == "hook":
+            do_hook(act[1])
+        elif k == "connect":
+            do_connect(act[1])
+        else:
+            raise ValueError(act)
+    for _ in range(200):
+        if w.deferred_hooks: do_hook(None)
+        elif w.deferred_connects: do_connect(0)
+        else: break
+    msgs = [[1 if m.from_client else 0, hx(m.content)] for m in lay.flow.messages]
+    return {"steps": w.log, "csteps": tap.log, "errors": [e[:2] for e in w.errors], "msgs": msgs,
+            "live": bool(lay.flow.live), "has_error": bool(lay.flow.error), "killed": killed,
+            "quiescent": lay._paused is None and tun._paused is None}
+
+
 def well_formed(case):
     """schedule server.py could produce: one ConnectionClosed per connection, no data after it"""
     closed = set()
@@ -177,7 +300,9 @@ class Check(PropertyCheck):
                   "exactly_one_end_or_error (at most one always; exactly one once quiescent with both sides closed / connect "
                   "failed), nothing_relayed_after_end; proved by invariants over the run, no bound on schedule length. The model is "
                   "tied to the real layers by step-by-step comparison (commands, connection states, handler, pause flag, queue "
-                  "length, message count) on exhaustive short and random longer schedules driven through world.py.")
+                  "length, message count) on exhaustive short and random longer schedules driven through world.py; a second "
+                  "family runs the real TCPLayer UNDER a real tunnel layer (HttpUpstreamProxy / tunnel.py): model tie at the "
+                  "tunnel/TCPLayer boundary, property oracle on what reaches the transport connection.")
     level_note = ("model covers TCPLayer, UDPLayer and Layer.handle_event/__continue; connection-state effects of commands "
                   "are those of ConnectionHandler.close_connection (OSError branch of write_eof not modelled); flow.kill() "
                   "inside a hook is exercised by the harness and has no effect on the relay (as in the code); "
@@ -189,7 +314,7 @@ class Check(PropertyCheck):
             "(config, effective input sequence); non-trivial = at least one SendData or close command was produced.")
     budget = {"quick": 20000, "thorough": 600000}
     time_budget = {"quick": 20, "thorough": 540}
-    fingerprints = ["mitmproxy.proxy.layers.tcp:TCPLayer", "mitmproxy.proxy.layers.udp:UDPLayer",
+    fingerprints = ["mitmproxy.proxy.tunnel:TunnelLayer", "mitmproxy.proxy.layers.tcp:TCPLayer", "mitmproxy.proxy.layers.udp:UDPLayer",
                     "mitmproxy.proxy.layer:Layer.handle_event", "mitmproxy.proxy.layer:Layer._Layer__continue",
                     "mitmproxy.proxy.layer:Layer._Layer__process",
                     "mitmproxy.proxy.server:ConnectionHandler.close_connection"]
@@ -217,8 +342,20 @@ class Check(PropertyCheck):
                 for proto, flow, connected in self.configs():
                     yield {"proto": proto, "flow": flow, "connected": connected, "sched": [list(a) for a in t]}
 
+    TUN_ALPHA = [("data", "c", "61"), ("data", "s", "62"), ("close", "c", 0), ("close", "s", 0), ("hook", None),
+                 ("hook", "7a7a"), ("inject", 1, "69"), ("inject", 0, "6a")]
+
+    def enum_tunnel(self, maxlen):
+        """TCPLayer under a CONNECT tunnel: tunnel established first, then every short schedule"""
+        for n in range(maxlen + 1):
+            for t in itertools.product(self.TUN_ALPHA, repeat=n):
+                yield {"proto": "tcp", "flow": 1, "connected": 0, "tunnel": 1,
+                       "sched": [["hook", None], ["connect", 0]] + [list(a) for a in t]}
+
     def generate(self, rng, tier):
+        yield from self.enum_tunnel(2)
         yield from self.enum(3 if tier == "quick" else 4, self.ALPHA)
+        yield from self.enum_tunnel(3 if tier == "quick" else 5)
         if tier == "thorough":
             yield from self.enum(6, self.ALPHA[:7])
         while True:
@@ -261,12 +398,15 @@ class Check(PropertyCheck):
                 sched.append(["hook", payload() if e == "edit" else e])
             else:
                 sched.append(["connect", 1 if rng.chance(0.3) else 0])
-        return {"proto": proto, "flow": flow, "connected": connected, "sched": sched}
+        case = {"proto": proto, "flow": flow, "connected": connected, "sched": sched}
+        if proto == "tcp" and flow and not connected and rng.chance(0.5):
+            case["tunnel"] = 1      # same schedule, but the TCPLayer sits under an HttpUpstreamProxy tunnel
+        return case
 
     # ---- implementation --------------------------------------------------------------------------
     def impl(self, case):
         try:
-            obs = run_schedule(case)
+            obs = run_schedule_tunnel(case) if case.get("tunnel") else run_schedule(case)
         except Exception as e:  # nothing may escape: the world records layer exceptions itself
             return {"exc": type(e).__name__ + ": " + str(e)[:200]}
         self._last = (case, obs)
@@ -318,6 +458,8 @@ class Check(PropertyCheck):
                     fails.append(f"full close {full} while a side was still readable (state {st['pre']})")
             for idx, st in enumerate(obs["steps"]):
                 if not st["in"].startswith("closed"): continue
+                # only the first ConnectionClosed of a connection is a peer's half-close (server.py delivers one per connection)
+                if any(p["in"].startswith(st["in"][:8]) for p in obs["steps"][:idx]): continue
                 prev = obs["steps"][idx - 1] if idx else None
                 if prev is None or prev["paused"] or prev["ph"] != "relay": continue
                 s = st["in"].split()[1]; o = "s" if s == "c" else "c"
@@ -332,21 +474,29 @@ class Check(PropertyCheck):
     # ---- model tie ---------------------------------------------------------------------------------
     def model_lines(self, case):
         last = getattr(self, "_last", None)
-        obs = last[1] if last and last[0] is case else run_schedule(case)
+        obs = last[1] if last and last[0] is case else self.impl(case)
         if "exc" in obs: return None
-        return [f"reset {case['proto']} {case['flow']} {case['connected']}"] + [st["in"] for st in obs["steps"]]
+        # tunnel family: the model is tied at the TunnelLayer/TCPLayer boundary (events the child really received)
+        steps = obs["csteps"] if case.get("tunnel") else obs["steps"]
+        return [f"reset {case['proto']} {case['flow']} {case['connected']}"] + [st["in"] for st in steps]
 
     def model_obs(self, case, replies):
+        if case.get("tunnel"):
+            # the virtual connection's state is kept by the tunnel layer, not by server.py: compare everything else
+            return [" ".join(f for f in r.split() if not f.startswith(("c=", "s="))) for r in replies[1:]]
         return replies[1:]
 
     def impl_view(self, case, obs):
+        if case.get("tunnel"):
+            return ["%s ph=%s paused=%d q=%d n=%d" % (",".join(st["out"]) or "-", st["ph"], st["paused"], st["q"], st["n"])
+                    for st in obs["csteps"]]
         return ["%s c=%s s=%s ph=%s paused=%d q=%d n=%d" % (",".join(st["out"]) or "-", st["c"], st["s"], st["ph"],
                                                              st["paused"], st["q"], st["n"]) for st in obs["steps"]]
 
     def classify(self, case, obs):
         if "exc" in obs: return None
         if not any(o[0] in "SC" for st in obs["steps"] for o in st["out"]): return None
-        return (case["proto"], case["flow"], case["connected"], tuple(st["in"] for st in obs["steps"]))
+        return (case["proto"], case["flow"], case["connected"], bool(case.get("tunnel")), tuple(st["in"] for st in obs["steps"]))
 
     def branches(self, case, obs):
         if "exc" in obs: return ["exc"]
@@ -360,6 +510,12 @@ class Check(PropertyCheck):
         if any(st["in"].startswith("inject") for st in obs["steps"]): b.append("inject")
         if obs.get("killed"): b.append("kill-in-hook")
         if not well_formed(case): b.append("wild-schedule")
+        if case.get("tunnel"):
+            b.append("under-tunnel(HttpUpstreamProxy)")
+            seen_close = False
+            for st in obs["steps"]:
+                if st["in"].startswith("closed s"): seen_close = True
+                elif seen_close and any(o.startswith("S:s:") for o in st["out"]): b.append("tunnel:send-after-peer-half-close"); break
         return b
 
     def neighbours(self, case, rng):
